@@ -245,6 +245,19 @@ Theorem C02_targets_and_holographic_nonvacuous :
   parse_model TokRoundEx.ex_cls ex2_numcanon TokRoundTEx.holo_ex true (lines_of (emit (u_space TokRoundEx.ex_cls) TokRoundTEx.ext)) = PRDoc TokRoundTEx.ext [] [].
 Proof. exact TokRoundTEx.ext_roundtrip. Qed.
 
+(* BLOCK TARGETS at TEXT level (lexer half Rt/LexLinkT*.v): coret documents without holographic values -- targeted blocks
+   KEY[->§T]: nested to any depth next to every core2 node -- are read back from their emitted text.  (For holographic values
+   the lexer half is not proved; the extracted coret_shape_check stands in per document.) *)
+From OV Require Rt.LexLinkT Rt.LexLinkTEx.
+Theorem C02_text_roundtrip_block_targets :
+  forall cls (hsh : str -> list sh) numcanon holo_ok strict sp d,
+    LexLinkT.coretb_doc d = true -> LexLinkT.lex_safet_doc d = true ->
+    TokRoundTHolo.nodes_side numcanon holo_ok ex_idnum hsh (dsections d) -> Forall (TokRoundT.field_num_ok numcanon) (dmeta d) ->
+    exists warns, parse_model cls numcanon holo_ok strict (lines_of (emit sp d)) = PRDoc d [] warns /\ Forall advisory warns.
+Proof. exact LexLinkT.text_roundtrip_coretb. Qed.
+Theorem C02_text_roundtrip_block_targets_nonvacuous : LexLinkT.coretb_doc LexLinkTEx.extb = true /\ LexLinkT.lex_safet_doc LexLinkTEx.extb = true.
+Proof. exact LexLinkTEx.extb_ok. Qed.
+
 (* ---- source-text pins (generated by harness/pinsets.py) ---- *)
 (* every function of these modules is, text for text (comments and docstrings excluded), the one the models of this
    property were written against and validated against: harness/translate/srcdigest_t.py, Src/Pin_*.v *)
